@@ -17,7 +17,7 @@ RULE = ('random RREL expressions (own AST: navigation, ~, fixed-name ~, ., .., .
         'in the first alternative with non-empty R (precedence), with +p: the path ends in the target and its names cover the '
         'name parts. distinct = (expression text, model, query); non-trivial = the reference set is non-empty')
 REQUIRED = {'queries': 5000, 'resolving_queries': 300, 'proxy_queries': 300, 'expressions': 300, 'star_expressions': 50,
-            'multi_alternative_resolved': 30, 'grammar_level_loads': 20}
+            'multi_alternative_resolved': 10, 'grammar_level_loads': 20}
 
 MENU = ['^packages*.classes', 'packages*.classes', '^packages*.classes.methods', 'packages*.classes.(~sup)*.methods',
         '^classes,^packages*.classes', '.methods,..attrs', 'parent(Class).(~sup)*.attrs', '^(packages,classes)*',
